@@ -102,14 +102,14 @@ Inductive gkind :=
 (* the type option of a vgirpc tag *)
 Inductive over :=
 | ONone | OInt8 | OInt16 | OInt32 | OUint8 | OUint16 | OUint32 | OUint64 | OFloat32
-| OEnum | OBinary | OLargeString | OLargeBinary | ODate | OTimestamp | OTimestampUTC
+| OEnum | ODictString | OBinary | OLargeString | OLargeBinary | ODate | OTimestamp | OTimestampUTC
 | OTime | ODuration | ODecimal | OFixedBin (n : N) | OStruct.
 
 Inductive gty :=
 | GLeaf (k : gkind)
 | GSlice (k : gkind) (eo : over)                 (* []k with an optional elem= override *)
 | GMap (k v : gkind)                             (* map[k]v *)
-| GStruct (cs : list (bytes * gkind * bool)).    (* struct of (tag name, kind, pointer) *)
+| GStruct (cs : list (bytes * gkind * bool * over)).  (* struct of (tag name, kind, pointer, type option) *)
 
 Record dfield := {
   d_name : bytes; d_go : gty; d_ptr : bool; d_over : over;
@@ -125,7 +125,7 @@ Definition over_ty (o : over) : option ty :=
   | OInt8 => P (PInt true W8) | OInt16 => P (PInt true W16) | OInt32 => P (PInt true W32)
   | OUint8 => P (PInt false W8) | OUint16 => P (PInt false W16) | OUint32 => P (PInt false W32)
   | OUint64 => P (PInt false W64) | OFloat32 => P (PFloat F32)
-  | OEnum => Some (TDict (TPrim (PInt true W16)) (TPrim PUtf8) false)
+  | OEnum | ODictString => Some (TDict (TPrim (PInt true W16)) (TPrim PUtf8) false)
   | OBinary => P PBinary | OLargeString => P PLargeUtf8 | OLargeBinary => P PLargeBinary
   | ODate => P PDate32 | OTimestamp => P (PTimestamp UMicro []) | OTimestampUTC => P (PTimestamp UMicro UTC)
   | OTime => P (PTime64 UMicro) | ODuration => P (PDuration UMicro) | ODecimal => P (PDecimal128 20 4)
@@ -144,11 +144,16 @@ Definition leaf_ty (k : gkind) : option ty :=
 
 Definition is_k_uint8 (k : gkind) : bool := match k with KUint8 => true | _ => false end.
 
-Fixpoint children (cs : list (bytes * gkind * bool)) : option fields :=
+(* a struct child is described by the same rules (type option first, else the
+   kind); children that are themselves structs / slices / maps are not modelled *)
+Definition child_ty (k : gkind) (o : over) : option ty :=
+  match over_ty o with Some t => Some t | None => leaf_ty k end.
+
+Fixpoint children (cs : list (bytes * gkind * bool * over)) : option fields :=
   match cs with
   | [] => Some FNil
-  | (n, k, ptr) :: r =>
-      match leaf_ty k, children r with
+  | (n, k, ptr, o) :: r =>
+      match child_ty k o, children r with
       | Some t, Some fr => Some (FCons n t ptr [] fr)
       | _, _ => None
       end
@@ -195,7 +200,11 @@ Fixpoint derive (ds : list dfield) : option schema :=
   end.
 
 (* ---------------------------------------------------------------- values *)
-Inductive val := VNull | VI (z : Z) | VB (b : bool) | VS (s : bytes) | VL (l : list val).
+Inductive val :=
+| VNull | VI (z : Z) | VB (b : bool) | VS (s : bytes) | VL (l : list val)
+| VD (i : Z) (d : list bytes).
+  (* a dictionary-encoded cell as it is on the wire: the row's index [i] into
+     the column's dictionary [d] (which may hold unused and duplicate entries) *)
 
 Fixpoint val_eqb (a b : val) : bool :=
   match a, b with
@@ -203,6 +212,7 @@ Fixpoint val_eqb (a b : val) : bool :=
   | VI x, VI y => Z.eqb x y
   | VB x, VB y => Bool.eqb x y
   | VS x, VS y => beqb x y
+  | VD i x, VD j y => Z.eqb i j && list_eqb beqb x y
   | VL x, VL y =>
       (fix go (x y : list val) : bool :=
          match x, y with
@@ -257,7 +267,13 @@ Definition conv_prim (k : gkind) (p : prim) (v : val) : option val :=
 Definition conv_leaf (k : gkind) (t : ty) (v : val) : option val :=
   match t with
   | TPrim p => conv_prim k p v
-  | TDict _ _ _ => match k with KString => Some v | _ => None end
+  | TDict _ _ _ =>
+      (* dict.Value(c.GetValueIndex(idx)): the dictionary entry the ROW'S INDEX
+         selects (an index outside the dictionary panics) *)
+      match k, v with
+      | KString, VD i d => if (i <? 0)%Z then None else option_map VS (nth_error d (Z.to_nat i))
+      | _, _ => None
+      end
   | _ => None
   end.
 
@@ -287,10 +303,10 @@ Fixpoint conv_pairs (kk kv : gkind) (tk tv : ty) (vs : list val) : option (list 
 
 (* struct children, positional (names are equal after the gate): a null child
    leaves nil for a pointer child and the zero value otherwise *)
-Fixpoint conv_children (cs : list (bytes * gkind * bool)) (fs : fields) (vs : list val) : option (list val) :=
+Fixpoint conv_children (cs : list (bytes * gkind * bool * over)) (fs : fields) (vs : list val) : option (list val) :=
   match cs, fs, vs with
   | [], _, _ => Some []
-  | (_, k, ptr) :: cr, FCons _ t _ _ fr, v :: vr =>
+  | (_, k, ptr, _) :: cr, FCons _ t _ _ fr, v :: vr =>
       match (if is_null v then Some (if ptr then VNull else zero_kind k) else conv_leaf k t v),
             conv_children cr fr vr with
       | Some x, Some xs => Some (x :: xs)
@@ -336,7 +352,8 @@ Definition zero_of (d : dfield) : val :=
   | GLeaf k => zero_kind k
   | GSlice k _ => if is_k_uint8 k then VS [] else VL []
   | GMap _ _ => VL []
-  | GStruct cs => VL (map (fun c : bytes * gkind * bool => if snd c then VNull else zero_kind (snd (fst c))) cs)
+  | GStruct cs => VL (map (fun c : bytes * gkind * bool * over =>
+                            let '(_, k, ptr, _) := c in if ptr then VNull else zero_kind k) cs)
   end.
 
 (* ---------------------------------------------------------------- defaults *)
